@@ -1,17 +1,11 @@
-// c09.cpp — harness for property C09 (Laplacian Eigenmaps / Diffusion Map).
+// c09.cpp — routine-level harness for property C09 (compute_laplacian / compute_diffusion_matrix).
 //
 // One case per stdin line, whitespace separated; doubles are C hex floats (strtod reads them).
 //   LAP  id mode n width  <n lists: len id id ...>  <n*n distances, row major>  [<m> <m*(arg val)>]
 //        -> calls tapkee_internal::compute_laplacian directly with these neighbour lists
 //   DM   id mode n width  <n*n distances>  [<m> <m*(arg val)>]
 //        -> calls tapkee_internal::compute_diffusion_matrix directly
-//   LE   id n k d width emethod cc  <n*n distances>
-//        -> tapkee::embed(method=LaplacianEigenmaps, Brute neighbours, check_connectivity=cc)
-//           + an INDEPENDENT dense reference (own k-NN, own L and D, Eigen generalized solver)
-//   DMAP id n d t width emethod seed  <n*n distances>
-//        -> tapkee::embed(method=DiffusionMap) + an INDEPENDENT dense reference
-//           (own K, p, q, M; Eigen self-adjoint solver)
-//   emethod: 0 = Dense, 1 = Randomized
+//   (the two METHOD classes are driven end to end through the public API by harness/c09_api.cpp)
 //   mode (the exp VALUE ORACLE seen by the two routines; DESIGN 1.1 / 6-C09 "table of exp values
 //   shared by both sides"): 0 = libm exp; 1 = libm exp rounded to a multiple of 2^-12 (>= 2^-12),
 //   so that every sum the routines form is exact in binary64; 2 = the table given on the case line
@@ -82,22 +76,7 @@ inline double exp(double x)
 #include <string>
 #include <vector>
 #include <algorithm>
-#ifdef C09_FULL_API
-// thorough tier: the public entry point, dispatcher included (instantiates all 20 methods: slow build)
-#include <tapkee/tapkee.hpp>
-#else
-// quick tier: only the two method classes are instantiated; the six lines of tapkee::embed() and of
-// DynamicImplementation::embedUsing() that lead to them are replicated in embed_one() below
 #include <tapkee/defines.hpp>
-#include <tapkee/callbacks/dummy_callbacks.hpp>
-#include <tapkee/parameters/context.hpp>
-#include <tapkee/parameters/defaults.hpp>
-#include <tapkee/methods/base.hpp>
-#include <tapkee/routines/eigendecomposition.hpp>
-#include <tapkee/routines/generalized_eigendecomposition.hpp>
-#include <tapkee/methods/laplacian_eigenmaps.hpp>
-#include <tapkee/methods/diffusion_map.hpp>
-#endif
 #include <tapkee/routines/laplacian_eigenmaps.hpp>
 #include <tapkee/routines/diffusion_maps.hpp>
 
@@ -111,50 +90,6 @@ struct matrix_distance_callback
         return (*dm)(a, b);
     }
 };
-
-#ifdef C09_FULL_API
-template <template <class, class, class, class> class Impl>
-static TapkeeOutput embed_one(stichwort::ParametersSet parameters, const std::vector<IndexType>& idx,
-                              const matrix_distance_callback& cb)
-{
-    return tapkee::with(parameters).withDistance(cb).embedUsing(idx);
-}
-#define C09_IMPL(X) tapkee_internal::X##Implementation
-namespace tapkee { namespace tapkee_internal {
-template <class A, class B, class C, class D> class LaplacianEigenmapsImplementation;
-template <class A, class B, class C, class D> class DiffusionMapImplementation;
-} }
-#else
-// tapkee::embed() + the dispatch macro of methods.hpp for exactly one method class
-template <template <class, class, class, class> class Impl>
-static TapkeeOutput embed_one(stichwort::ParametersSet parameters, const std::vector<IndexType>& idx,
-                              const matrix_distance_callback& cb)
-{
-    typedef std::vector<IndexType>::const_iterator It;
-    typedef dummy_kernel_callback<IndexType> KC;
-    typedef dummy_features_callback<IndexType> FC;
-    try
-    {
-        parameters.check();
-        [](auto& p) {   // embed.hpp calls checkTypes between check() and merge() since fix F27
-            if constexpr (requires { p.checkTypes(tapkee_internal::defaults); })
-                p.checkTypes(tapkee_internal::defaults);
-        }(parameters);
-        parameters.merge(tapkee_internal::defaults);
-        tapkee_internal::Context context(nullptr, nullptr);
-        tapkee_internal::ImplementationBase<It, KC, matrix_distance_callback, FC> base(
-            idx.begin(), idx.end(), KC(), cb, FC(), parameters, context);
-        Impl<It, KC, matrix_distance_callback, FC> implementation(base);
-        implementation.validate();
-        return implementation.embed();
-    }
-    catch (const stichwort::wrong_parameter_error& ex)
-    {
-        throw tapkee::wrong_parameter_error(ex.what());
-    }
-}
-#define C09_IMPL(X) tapkee_internal::X##Implementation
-#endif
 
 static void print_mat(const char* tag, const DenseMatrix& m)
 {
@@ -229,76 +164,6 @@ struct oracle_scope
     }
 };
 
-// ---------------------------------------------------------------- independent references
-static std::vector<std::vector<int>> own_knn(const DenseMatrix& dist, int k)
-{
-    const int n = dist.rows();
-    std::vector<std::vector<int>> nb(n);
-    for (int i = 0; i < n; i++)
-    {
-        std::vector<std::pair<double, int>> c;
-        for (int j = 0; j < n; j++)
-            if (j != i) c.push_back(std::make_pair((double)dist(i, j), j));
-        std::sort(c.begin(), c.end());
-        for (int t = 0; t < k && t < (int)c.size(); t++) nb[i].push_back(c[t].second);
-    }
-    return nb;
-}
-
-static bool undirected_connected(const std::vector<std::vector<int>>& nb)
-{
-    const int n = nb.size();
-    std::vector<std::vector<int>> adj(n);
-    for (int i = 0; i < n; i++)
-        for (int j : nb[i]) { adj[i].push_back(j); adj[j].push_back(i); }
-    std::vector<int> seen(n, 0), stack(1, 0);
-    seen[0] = 1;
-    int cnt = 1;
-    while (!stack.empty())
-    {
-        int u = stack.back(); stack.pop_back();
-        for (int v : adj[u]) if (!seen[v]) { seen[v] = 1; cnt++; stack.push_back(v); }
-    }
-    return cnt == n;
-}
-
-
-// oracle contract of the (generalised) self-adjoint solver measured on one call, with plain loops (no GEMM
-// instantiation): A V = B V Lambda, V^T B V = I, V (V^T B) = I, ascending; B = NULL means identity
-static void contract_measures(const DenseMatrix& A, const DenseMatrix* B, const DenseMatrix& V, const DenseVector& lam,
-                              double& res, double& gram, double& comp, int& asc)
-{
-    const int n = A.rows();
-    DenseMatrix BV(n, n);
-    for (int i = 0; i < n; i++)
-        for (int c = 0; c < n; c++)
-        {
-            double s = 0;
-            if (B) { for (int t = 0; t < n; t++) s += (*B)(i, t) * V(t, c); } else s = V(i, c);
-            BV(i, c) = s;
-        }
-    double amax = 1.0;
-    res = gram = comp = 0;
-    for (int i = 0; i < n; i++)
-        for (int c = 0; c < n; c++)
-        {
-            amax = std::max(amax, std::fabs(A(i, c)));
-            double av = 0, g = 0, cm = 0;
-            for (int t = 0; t < n; t++)
-            {
-                av += A(i, t) * V(t, c);
-                g += V(t, i) * BV(t, c);
-                cm += V(i, t) * BV(c, t);      // (V (V^T B))_{ic} = sum_t V_it (B V)_{ct} for symmetric B
-            }
-            res = std::max(res, std::fabs(av - BV(i, c) * lam(c)));
-            gram = std::max(gram, std::fabs(g - (i == c ? 1.0 : 0.0)));
-            comp = std::max(comp, std::fabs(cm - (i == c ? 1.0 : 0.0)));
-        }
-    res /= amax;
-    asc = 1;
-    for (int i = 0; i + 1 < n; i++) if (lam(i) > lam(i + 1)) asc = 0;
-}
-
 static void run_lap(std::istringstream& is)
 {
     int n, md; std::string wtok;
@@ -351,130 +216,6 @@ static void run_dm(std::istringstream& is)
     print_mat("H", heat_table(dist, width));
 }
 
-static void run_le(std::istringstream& is)
-{
-    int n, k, d, em, cc; std::string wtok;
-    is >> n >> k >> d >> wtok >> em >> cc;
-    if (!is || n < 0 || n > 4096) { printf("@BADINPUT\n"); return; }
-    double width = strtod(wtok.c_str(), NULL);
-    DenseMatrix dist;
-    if (!read_mat(is, n, dist)) { printf("@BADINPUT\n"); return; }
-    std::vector<IndexType> idx(n);
-    for (int i = 0; i < n; i++) idx[i] = i;
-    matrix_distance_callback cb{&dist};
-    // independent reference first (so that it is available even if the library aborts later)
-    std::vector<std::vector<int>> nb = own_knn(dist, k);
-    printf("@NB");
-    for (int i = 0; i < n; i++)
-    {
-        printf(" %d", (int)nb[i].size());
-        for (int j : nb[i]) printf(" %d", j);
-    }
-    printf("\n@CONN %d\n", undirected_connected(nb) ? 1 : 0);
-    DenseMatrix A = DenseMatrix::Zero(n, n);
-    for (int i = 0; i < n; i++)
-        for (int j : nb[i]) A(i, j) = std::exp(-(dist(i, j) * dist(i, j)) / width);
-    DenseMatrix W = A + A.transpose();
-    DenseMatrix deg = W.rowwise().sum();
-    DenseMatrix Lref = -W;
-    for (int i = 0; i < n; i++) Lref(i, i) += deg(i, 0);
-    DenseMatrix Dref = DenseMatrix::Zero(n, n);
-    for (int i = 0; i < n; i++) Dref(i, i) = deg(i, 0);
-    print_mat("LREF", Lref);
-    print_mat("DREF", DenseMatrix(deg.transpose()));
-    print_mat("H", heat_table(dist, width));
-    bool posdef = true;
-    for (int i = 0; i < n; i++) if (!(deg(i, 0) > 0)) posdef = false;
-    if (posdef)
-    {
-        Eigen::GeneralizedSelfAdjointEigenSolver<DenseMatrix> ref(Lref, Dref);
-        if (ref.info() == Eigen::Success)
-        {
-            print_mat("LAMREF", DenseMatrix(ref.eigenvalues().transpose()));
-            print_mat("VREF", DenseMatrix(ref.eigenvectors()));
-            // oracle contract of GeneralizedSelfAdjointEigenSolver (the class the library uses), measured on
-            // this call: L V = D V Lambda, V^T D V = I, V (V^T D) = I, ascending
-            const DenseMatrix V = ref.eigenvectors();
-            const DenseVector lam = ref.eigenvalues();
-            double res, gram, comp;
-            int asc;
-            contract_measures(Lref, &Dref, V, lam, res, gram, comp, asc);
-            printf("@ORACLE 1 4 %a %a %a %a\n", res, gram, comp, (double)asc);
-        }
-        else
-            printf("@REFFAIL\n");
-    }
-    else
-        printf("@REFFAIL\n");
-    fflush(stdout);
-    try
-    {
-        TapkeeOutput out = embed_one<C09_IMPL(LaplacianEigenmaps)>(
-            (method = LaplacianEigenmaps, num_neighbors = k, target_dimension = d,
-             gaussian_kernel_width = width, eigen_method = (em == 0 ? Dense : Randomized),
-             neighbors_method = Brute, check_connectivity = (cc != 0)), idx, cb);
-        print_mat("Y", out.embedding);
-    }
-    catch (const std::exception& e)
-    {
-        printf("@EXC %s\n", e.what());
-    }
-}
-
-static void run_dmap(std::istringstream& is)
-{
-    int n, d, t, em; unsigned seed; std::string wtok;
-    is >> n >> d >> t >> wtok >> em >> seed;
-    double width = strtod(wtok.c_str(), NULL);
-    DenseMatrix dist;
-    if (!read_mat(is, n, dist)) { printf("@BADINPUT\n"); return; }
-    std::vector<IndexType> idx(n);
-    for (int i = 0; i < n; i++) idx[i] = i;
-    matrix_distance_callback cb{&dist};
-    // independent dense reference: K, p = K 1, K' = K / (p p^T), q = K' 1, M = K' / sqrt(q q^T)
-    DenseMatrix K(n, n);
-    for (int i = 0; i < n; i++)
-        for (int j = 0; j < n; j++)
-            K(i, j) = std::exp(-(dist(i, j) * dist(i, j)) / width);
-    DenseVector p = K.rowwise().sum();
-    DenseMatrix K1 = (p.cwiseInverse().asDiagonal() * K * p.cwiseInverse().asDiagonal());
-    DenseVector q = K1.rowwise().sum();
-    DenseVector s = q.cwiseSqrt().cwiseInverse();
-    DenseMatrix M = s.asDiagonal() * K1 * s.asDiagonal();
-    M = ((M + M.transpose()) / 2).eval();
-    print_mat("MREF", M);
-    Eigen::SelfAdjointEigenSolver<DenseMatrix> ref(M);
-    if (ref.info() == Eigen::Success)
-    {
-        print_mat("EVAL", DenseMatrix(ref.eigenvalues().transpose()));
-        print_mat("EVEC", DenseMatrix(ref.eigenvectors()));
-        {
-            // oracle contract of SelfAdjointEigenSolver measured on this call: M V = V Lambda, V^T V = I, ascending
-            const DenseMatrix V = ref.eigenvectors();
-            const DenseVector lam = ref.eigenvalues();
-            double res, gram, comp;
-            int asc;
-            contract_measures(M, NULL, V, lam, res, gram, comp, asc);
-            printf("@ORACLE 1 4 %a %a %a %a\n", res, gram, comp, (double)asc);
-        }
-    }
-    else
-        printf("@REFFAIL\n");
-    fflush(stdout);
-    std::srand(seed);
-    try
-    {
-        TapkeeOutput out = embed_one<C09_IMPL(DiffusionMap)>(
-            (method = DiffusionMap, target_dimension = d, diffusion_map_timesteps = t,
-             gaussian_kernel_width = width, eigen_method = (em == 0 ? Dense : Randomized)), idx, cb);
-        print_mat("Y", out.embedding);
-    }
-    catch (const std::exception& e)
-    {
-        printf("@EXC %s\n", e.what());
-    }
-}
-
 int main()
 {
     std::string line;
@@ -490,8 +231,6 @@ int main()
         {
             if (cmd == "LAP") run_lap(is);
             else if (cmd == "DM") run_dm(is);
-            else if (cmd == "LE") run_le(is);
-            else if (cmd == "DMAP") run_dmap(is);
             else printf("@BADCMD\n");
         }
         catch (const std::exception& e)
